@@ -41,6 +41,34 @@ pub fn exec(op: &str, a: &Value) -> Option<Value> {
             if sub != SUB_NS { return json!({"bad_subsecond": sub}); }
             json!({"w": int(w), "off": int(*off as i64 / 1_000_000_000)})
         }),
+        // one instant seen through the different routes that must agree: the zoned date-time itself, Temporal.Now with explicit system
+        // information, Instant.toZonedDateTimeISO, withTimeZone from another zone, and a string round trip
+        "Zoned.views" => run(|| {
+            let tz = time_zone_for(&z, false); let ns = abs_ns(js::i(a, "t")); let via = js::s(a, "via");
+            let x = match via {
+                "direct" => zdt(&z, js::i(a, "t"))?,
+                "now" => Now::zoneddatetime_iso_with_system_info(temporal_rs::time::EpochNanoseconds::try_from(ns)?, tz.clone())?,
+                "instant" => Instant::try_new(ns)?.to_zoned_date_time_iso(tz.clone()),
+                "rezone" => ZonedDateTime::try_new(ns, iso(), TimeZone::UtcOffset(UtcOffset::from_str("+03:00")?))?.with_timezone(tz.clone())?,
+                "string" => { let s = zdt(&z, js::i(a, "t"))?.to_ixdtf_string_with_provider(DisplayOffset::Auto, DisplayTimeZone::Auto, DisplayCalendar::Auto, ToStringRoundingOptions::default(), &p)?;
+                    ZonedDateTime::from_str_with_provider(&s, Disambiguation::Compatible, OffsetDisambiguation::Reject, &p)? }
+                _ => panic!("HARNESS: via {via}"),
+            };
+            let (dt, d, t) = if via == "now" {
+                let e = temporal_rs::time::EpochNanoseconds::try_from(ns)?;
+                (Now::plain_datetime_iso_with_provider_and_system_info(e, tz.clone(), &p)?, Now::plain_date_iso_with_provider_and_system_info(e, tz.clone(), &p)?, Now::plain_time_iso_with_provider_and_system_info(e, tz.clone(), &p)?)
+            } else { (x.to_plain_datetime_with_provider(&p)?, x.to_plain_date_with_provider(&p)?, x.to_plain_time_with_provider(&p)?) };
+            let off = x.offset_nanoseconds_with_provider(&p)?;
+            Ok((x.epoch_nanoseconds().as_i128(), dt, d, t, off))
+        }, |(ns, dt, d, t, off)| {
+            let day = crate::gen::days_from_civil(dt.iso_year() as i64, dt.iso_month() as i64, dt.iso_day() as i64);
+            let w = day * 86_400 + (dt.hour() as i64 * 60 + dt.minute() as i64) * 60 + dt.second() as i64 - BASE_SEC;
+            let sub = (dt.millisecond() as i64 * 1000 + dt.microsecond() as i64) * 1000 + dt.nanosecond() as i64;
+            let tsub = (t.millisecond() as i64 * 1000 + t.microsecond() as i64) * 1000 + t.nanosecond() as i64;
+            if sub != SUB_NS || tsub != SUB_NS { return json!({"bad_subsecond": [sub, tsub]}); }
+            let dday = crate::gen::days_from_civil(d.iso_year() as i64, d.iso_month() as i64, d.iso_day() as i64) - BASE_SEC / 86_400;
+            json!({"t": rel_of(*ns), "w": int(w), "day": int(dday), "sod": int((t.hour() as i64 * 60 + t.minute() as i64) * 60 + t.second() as i64), "off": int(*off as i64 / 1_000_000_000)})
+        }),
         "Zoned.fromStr" => run(|| {
             let f = fields_of(js::i(a, "w"), SUB_NS);
             let year = if (0..=9999).contains(&f.0) { format!("{:04}", f.0) } else { format!("{}{:06}", if f.0 < 0 { '-' } else { '+' }, f.0.abs()) };
